@@ -7,3 +7,12 @@ import "time"
 
 // VerifSetFrame sets the redraw interval of the cockpit spinner (verification builds only).
 func VerifSetFrame(d time.Duration) { frame = d }
+
+// VerifResetCockpit forgets the process-wide cockpit (and its spinner), so that the next task
+// output is again the first one of a process (verification builds only).
+func VerifResetCockpit() chan bool {
+	base = nil
+	closed = false
+	closeCh = make(chan bool)
+	return closeCh
+}
